@@ -94,6 +94,14 @@ def highlevel(ctx, model, cov):
                 sent = b"".join(out.writes[n_before:])
                 ids.append([inst.id, sent[:120].hex()])
             res.append([sp, sub, mx, ids, repr(spelled), mode])
+            # ... and the SAME image (same geometry) once more on this terminal object under other per-call subspaces: each
+            # request is served from the subspace it names
+            for other in ("3:5", "240:250", "128:129"):
+                try:
+                    inst = t.assign_id(imgs[1], cols=1, rows=1, id_space=sp, id_subspace=other)
+                    res.append([sp, other, mx, [[inst.id, ""]], repr(sp), 1])
+                except Exception:  # noqa: BLE001
+                    pass
             os.remove(db)
         # the session database is locked by another writer for longer than the busy timeout: the request may fail
         # (OperationalError), but an id that IS handed out lies in the requested space and subspace all the same
